@@ -167,6 +167,7 @@ def gen_case(rng):
             "vdtype": gen.pick(rng, ["int64", "float64", "int32", "datetime64[ns]", "timedelta64[us]", "uint16", "float32"]),
             "ncols": gen.pick(rng, [1, 1, 2]), "frame": bool(rng.random() < 0.5), "vc": gen.pick(rng, ["np", "pd"]),
             "index": gen.gen_index(rng, n), "val": {"dtype": "int64", "vals": []}}
+    common.add_route(rng, case, 0.2)
     return case
 
 
